@@ -28,6 +28,7 @@ import (
 type pep440Extension struct {
 	version *Version
 	ext     *pep440 // The details.
+	err     error   // First error found by a helper that cannot return one.
 }
 
 // pep440 holds the details, if there are any.
@@ -248,6 +249,9 @@ func (p *pep440Extension) init(input string) error {
 	if err != nil {
 		return err
 	}
+	if p.err != nil {
+		return p.err
+	}
 	if input != "" {
 		// Common error.
 		if input[0] == '.' {
@@ -425,7 +429,11 @@ func (p *pep440Extension) number(input string) (int, string) {
 			break
 		}
 	}
-	num, _ := strconv.ParseUint(input[:i], 10, 64)
+	num, err := strconv.ParseUint(input[:i], 10, 63)
+	if err != nil {
+		// Too large to hold; report it when parsing finishes.
+		p.err = fmt.Errorf("number out of range: %s", input[:i])
+	}
 	return int(num), input[i:]
 }
 
